@@ -256,6 +256,16 @@ func genC19(r *hx.Rng, tier string, w io.Writer) {
 			load(wp)
 		}
 		p("create pass=%s", hx.Hex(pw)) // refuses to overwrite
+		// the same file on a host with fewer / more cores
+		for _, n := range []int{1, 2, 3, 8} {
+			p("procs n=%d", n)
+			load(pw)
+			p("export pass=%s", hx.Hex(pw))
+		}
+		p("procs n=2")
+		p("create pass=%s", hx.Hex(pw))
+		p("procs n=0")
+		load(pw)
 		p("export pass=%s", hx.Hex(pw))
 		p("export pass=%s", hx.Hex(wrongOf(r, pw)[0]))
 		p2 := r.Bytes(r.Intn(20))
